@@ -457,10 +457,12 @@ def register_numpy():
             except (TypeError, UnicodeDecodeError):
                 return normalize_object(x)
         else:
+            # Hash the values in logical (C) order: the token must not depend on
+            # the memory layout, only on dtype, shape and values
             try:
-                data = hash_buffer_hex(x.ravel(order="K").view("i1"))
+                data = hash_buffer_hex(x.ravel(order="C").view("i1"))
             except (BufferError, AttributeError, ValueError):
-                data = hash_buffer_hex(x.copy().ravel(order="K").view("i1"))
+                data = hash_buffer_hex(x.copy().ravel(order="C").view("i1"))
         return (data, x.dtype, x.shape)
 
     @normalize_token.register(np.memmap)
